@@ -463,6 +463,45 @@ var edits = []progEdit{
 		}
 		return nil, "", false
 	}},
+	{"semantic:integer-literal-to-fractional-float", true, func(p *Prog, plan *Tape) (*Prog, string, bool) {
+		// factor = 1  ->  factor = 1.5 (same integer part) on a float parameter
+		q := cloneProg(p)
+		r := reachable(q)
+		var frac func(v interface{}) (interface{}, bool)
+		frac = func(v interface{}) (interface{}, bool) {
+			switch x := v.(type) {
+			case int64:
+				return float64(x) + 0.5, true
+			case []interface{}:
+				for i := range x {
+					if nv, ok := frac(x[i]); ok {
+						c := append([]interface{}(nil), x...)
+						c[i] = nv
+						return c, true
+					}
+				}
+			}
+			return nil, false
+		}
+		for _, pl := range q.Pipelines {
+			if !r[pl.Name] {
+				continue
+			}
+			for _, c := range pl.Calls {
+				for i, b := range c.Binds {
+					if b.E != nil && b.E.Kind == ELit && b.E.T.Base == "float" {
+						if nv, ok := frac(b.E.Val); ok {
+							ne := *b.E
+							ne.Val = nv
+							c.Binds[i].E = &ne
+							return q, "", true
+						}
+					}
+				}
+			}
+		}
+		return nil, "", false
+	}},
 	{"semantic:change-top-call-argument", true, func(p *Prog, plan *Tape) (*Prog, string, bool) {
 		q := cloneProg(p)
 		for bi, b := range q.Top.Binds {
@@ -549,7 +588,7 @@ func templateStructRefProg(plan *Tape) *Prog {
 	self := func(path ...string) *Expr { return &Expr{Kind: ERef, Self: true, Path: path} }
 	p.Stages = []*StageDef{
 		{Name: "USE", SrcKind: "comp", Ins: []Field{{"count", intT}, {"label", strT}}, Outs: []Field{{"res", resT}, {"n", intT}}},
-		{Name: "SUM", SrcKind: "comp", Ins: []Field{{"xs", intT.ArrayOf()}, {"c", cfgT}}, Outs: []Field{{"sum", intT}}},
+		{Name: "SUM", SrcKind: "comp", Ins: []Field{{"xs", intT.ArrayOf()}, {"c", cfgT}, {"scale", Ty{Base: "float"}}, {"weights", Ty{Base: "float", Dims: "a"}}}, Outs: []Field{{"sum", intT}}},
 	}
 	inner := &PipelineDef{Name: "INNERS", Ins: []Field{{"cfg", cfgT}}, Outs: []Field{{"n", intT}, {"back", intT}}}
 	inner.Calls = []*CallDef{{Callee: "USE", Id: "USE", Binds: []Bind{{"count", self("cfg", "reads"), false}, {"label", self("cfg", "tag"), false}}}}
@@ -560,7 +599,10 @@ func templateStructRefProg(plan *Tape) *Prog {
 		{Callee: "INNERS", Id: "INNERS", Binds: []Bind{{"cfg", self("cfg"), false}}},
 		{Callee: "SUM", Id: "SUM", Binds: []Bind{
 			{"xs", &Expr{Kind: EArr, T: intT.ArrayOf(), Elems: []*Expr{self("cfg", "reads"), ref("USE", "res", "other"), self("k")}}, false},
-			{"c", ref("USE", "res", "cfg"), false}}},
+			{"c", ref("USE", "res", "cfg"), false},
+			// float parameters given integer-written literals
+			{"scale", &Expr{Kind: ELit, Val: int64(1 + plan.Draw(4)), T: Ty{Base: "float"}}, false},
+			{"weights", &Expr{Kind: ELit, Val: []interface{}{int64(1), int64(2)}, T: Ty{Base: "float", Dims: "a"}}, false}}},
 	}
 	if plan.Draw(2) == 0 {
 		top.Calls[0].Disabled = nil
